@@ -40,11 +40,10 @@ func CrashProbe() {
 	os.Exit(4)
 }
 
-// The defects found while building this check are probed on every run with their minimal
-// replays.  A defect that is present is reported (r.Finding, matched by known_findings/C04.json
-// while its repair is not committed) and switches the indexer model evaluated by Tie.C04.case_ok to
-// the behaviour of the code as it stands (record `fixes` of coq/Idx/Indexer.v); a defect that is
-// absent switches the model to the repaired behaviour.
+// The defects found while building this check (all repaired in /repo) are replayed on every run
+// with their minimal inputs.  A recurrence is reported (r.Finding: a violation, the entries of
+// known_findings/C04.json are `fixed`).  The probes do NOT select the model: Tie.C04 always evaluates
+// all_fixed, so a recurrence also shows up as disagreements of the random runs.
 
 func probeCfg(bulk int, multi bool) StoreCfg {
 	return StoreCfg{Multi: multi, MaxBulk: bulk, Adaptive: true, BulkTO: 10 * time.Minute, MaxTxEs: 8, MaxKeyLen: 32,
@@ -192,6 +191,7 @@ func probes(r *sink) (Flags, error) {
 		os.RemoveAll(tmp)
 		f.Cap = err == nil && strings.Contains(string(out), "crashprobe: indexed")
 		if !f.Cap {
+			crashSeen = true
 			line := ""
 			for _, l := range strings.Split(string(out), "\n") {
 				if strings.HasPrefix(l, "panic:") || strings.HasPrefix(l, "crashprobe:") {
@@ -240,5 +240,6 @@ func probes(r *sink) (Flags, error) {
 			r.Finding(fD5 + ": Rz=1,Rz=2,Rz=3, flush, Rk=a,Rk=b,Rk=c, flush, all indexed by the primary index; a secondary injective index created afterwards never reaches transaction 6 (indexSince: ReadTxEntry key not found, retried forever)")
 		}
 	}
-	return f, nil
+	_ = f // what the probes saw is reported above; the model is not selected by it
+	return allFixed, nil
 }
